@@ -241,6 +241,18 @@ func textForms(bad func(string)) {
 		if b, _ := f.MarshalText(); string(b) != first {
 			bad(fmt.Sprintf("FilterFlag(%d): MarshalText %q, String %q", uint32(f), b, first))
 		}
+		// the bytes MarshalText returns are the caller's: writing into them, or appending to them, must not show in a later conversion
+		if b, err := f.MarshalText(); err == nil {
+			want := string(b)
+			for i := range b {
+				b[i] = 'X'
+			}
+			_ = append(b[:len(b):cap(b)][:len(b)], "=1"...)
+			_ = append(b, "#####"...)
+			if b2, _ := f.MarshalText(); string(b2) != want {
+				bad(fmt.Sprintf("FilterFlag(%d): MarshalText gave %q, and %q after the caller wrote into the first result", uint32(f), want, b2))
+			}
+		}
 	}
 	acts := []seccomp.Action{seccomp.ActionKillThread, seccomp.ActionKillProcess, seccomp.ActionTrap, seccomp.ActionErrno, seccomp.ActionTrace,
 		seccomp.ActionLog, seccomp.ActionAllow, seccomp.ActionUserNotify, 0x12340000}
@@ -250,6 +262,16 @@ func textForms(bad func(string)) {
 			if s := a.String(); s != first {
 				bad(fmt.Sprintf("Action(%#x).String() gave %q and %q", uint32(a), first, s))
 				break
+			}
+		}
+		if b, err := a.MarshalText(); err == nil {
+			want := string(b)
+			for i := range b {
+				b[i] = 'X'
+			}
+			_ = append(b, "#####"...)
+			if b2, _ := a.MarshalText(); string(b2) != want {
+				bad(fmt.Sprintf("Action(%#x): MarshalText gave %q, and %q after the caller wrote into the first result", uint32(a), want, b2))
 			}
 		}
 		var back seccomp.Action
@@ -369,6 +391,15 @@ func conc(share string, n, rounds int) {
 					arch.GetInfo("AMD64")
 				case 1:
 					_ = seccomp.FilterFlag(3).String() + seccomp.ActionErrno.String()
+					// concurrent text conversions whose results the callers extend in place (append): each caller owns its bytes
+					ta, _ := seccomp.ActionAllow.MarshalText()
+					ta = append(ta, byte('0'+i%10))
+					tf, _ := seccomp.FilterFlagTSync.MarshalText()
+					tf = append(tf, byte('0'+i%10))
+					if string(ta) != "allow"+string(rune('0'+i%10)) || string(tf) != "tsync"+string(rune('0'+i%10)) {
+						violate("%s: goroutine %d: the text a concurrent conversion returned was overwritten by another goroutine (%q, %q)", share, i, ta, tf)
+						return
+					}
 				case 2:
 					var a seccomp.Action
 					a.Unpack("Kill_Process")
